@@ -1,4 +1,5 @@
 #include "fmt_binary.hpp"
+#include "../core/binseeds.hpp"
 #include <jsoncons_ext/bson/bson.hpp>
 using namespace jsoncons;
 namespace iosim {
@@ -19,33 +20,7 @@ struct BsonB {
     static void encode(const ojson& j, std::vector<uint8_t>& out, uint64_t) { bson::encode_bson(wrap(j), out); }
     static void encode_stream(const ojson& j, std::ostream& os, uint64_t) { bson::encode_bson(wrap(j), os); }
     static Outcome encoder_nest(int ckind, size_t depth, int limit) { auto opt = bson::bson_options{}.max_nesting_depth(limit); return encoder_nest_impl<bson::bson_bytes_encoder, std::vector<uint8_t>, bson::bson_options>(ckind, depth, opt, true); }
-    static const char* const* seed_hex() {
-        static const char* const s[] = {
-            "0500000000",
-            "1600000002 68656c6c6f00 06000000 776f726c6400 00",                                   // {"hello":"world"}
-            "1000000001 6100 000000000000f83f 00",                                                // double
-            "0c00000010 6100 01000000 00",                                                         // int32
-            "1000000012 6100 0100000000000000 00",                                                // int64
-            "0900000008 6100 01 00", "080000000a 6100 00", "0800000006 6100 00", "08000000ff 6100 00", "080000007f 6100 00",
-            "1000000009 6100 00e4d2bb64010000 00",                                                // datetime
-            "1000000011 6100 0100000002000000 00",                                                // timestamp
-            "1400000007 6100 507f1f77bcf86cd799439011 00",                                        // oid
-            "1800000013 6100 01000000000000000000000000004030 00",                                // decimal128
-            "0f0000000b 6100 61622a00 6900 00",                                                    // regex
-            "120000000d 6100 06000000 782b2b3b3100 00",                                            // javascript
-            "1200000005 6100 05000000 00 0102030405 00", "1200000005 6100 05000000 80 0102030405 00", "0d00000005 6100 00000000 00 00",
-            "1500000003 6100 0d000000 10 6200 01000000 00 00",                                    // embedded doc
-            "1a00000004 6100 12000000 10 3000 01000000 10 3100 02000000 00 00",                  // array
-            "1300000002 6100 07000000 73686f727400 c3a9 00",                                     // bad length
-            "0e00000002 6100 02000000 c300 00",                                                    // invalid utf8
-            "0e00000002 6100 03000000 6100 00", "0e00000002 6100 00000000 00 00", "0d00000002 6100 01000000 00 00",
-            "2600000002 6b00 05000000 7368727400 02 6c00 0f000000 6c6f6e676572207374 72696e6700 00",
-            "0c00000010 6100", "0c000000", "ffffff7f 10 6100 01000000 00", "0c000000 02 6100 ffffff7f 6100 00", "1200000005 6100 ffffff7f 00 0102 00", "0c00000003 6100 ffffff7f 00", "0c00000004 6100 ffffff7f 00",
-            "0c00000010 6100 01000000 01", "0800000020 6100 00", "0c000000 10 61 01000000 00",
-            "3100000003 6100 29000000 03 6100 21000000 03 6100 19000000 03 6100 11000000 03 6100 09000000 08 6100 01 00 00 00 00 00 00",
-            nullptr };
-        return s;
-    }
+    static const char* const* seed_hex() { return sim::binseeds::bson(); }
 };
 const FormatApi& bson_api() { return BinaryFmt<BsonB>::api(); }
 }
